@@ -110,7 +110,15 @@ class GooseModel:
         model_state
             A dictionary of node names and their corresponding :class:`.NodeState`.
         """
-        return model_state["_model_log_prob"].value
+        log_prob = model_state["_model_log_prob"].value
+
+        if log_prob is None:
+            # a user-defined log-prob node is forwarded by a transient node,
+            # whose value is not part of the model state
+            self._model.state = model_state
+            log_prob = self._model.log_prob
+
+        return log_prob
 
 
 def finite_discrete_gibbs_kernel(
